@@ -14,7 +14,8 @@ RULE = ('alphabet A = pinned list of invertible built-in characters (pv/data/c08
         'pair of neighbour classes, then Hypothesis strings (<= 12 characters); thorough adds '
         'all ordered pairs of A. Each under the 4 brace-protection schemes x {default, strict} '
         'latex2text whitespace policy. Oracle: latex_to_text(unicode_to_latex(s), '
-        'tolerant_parsing=False) == NFC(s). Non-trivial = string with >= 2 characters of which '
+        'tolerant_parsing=False) == NFC(s). One shard runs after a caller customised its own copies of the default databases. '
+        'Non-trivial = string with >= 2 characters of which '
         '>= 1 non-ASCII or LaTeX-active; distinct by (string, configuration).')
 ASSUMPTIONS = [
     'the invertible alphabet is pinned in a committed data file (277 excluded characters are '
